@@ -37,11 +37,12 @@ type Inliner struct {
 	MaxDepth int
 	memo     map[*ast.FuncDecl]*core.Fn
 	nlabel   int
+	threaded map[ast.Stmt]bool // tests already re-threaded (rethread.go)
 }
 
 // NewInliner creates an inliner; keep names the functions that stay calls.
 func NewInliner(p *core.Program, keep func(*types.Func) bool) *Inliner {
-	return &Inliner{Prog: p, Keep: keep, MaxDepth: 2, memo: map[*ast.FuncDecl]*core.Fn{}}
+	return &Inliner{Prog: p, Keep: keep, MaxDepth: 2, memo: map[*ast.FuncDecl]*core.Fn{}, threaded: map[ast.Stmt]bool{}}
 }
 
 // Fn returns fn with an inlined copy of its body (memoised; nil stays nil).
@@ -54,6 +55,7 @@ func (in *Inliner) Fn(fn *core.Fn) *core.Fn {
 	}
 	cl := &cloner{in: in, info: fn.Pkg.TypesInfo, pkg: fn.Pkg.Types, subst: map[types.Object]ast.Expr{}, stack: []*types.Func{fn.Obj}, outer: fn.Decl.Body, root: fn.Decl.Body}
 	body := cl.node(fn.Decl.Body).(*ast.BlockStmt)
+	rethread(in, fn.Pkg.TypesInfo, body)
 	decl := *fn.Decl
 	decl.Body = body
 	out := &core.Fn{Obj: fn.Obj, Decl: &decl, Pkg: fn.Pkg}
@@ -86,9 +88,10 @@ type cloner struct {
 	stack []*types.Func
 	ret   *retPolicy // nil: returns are copied unchanged
 	inLit int
-	outer ast.Node       // body of the function (or helper) being copied (for single-assignment tests)
-	root  ast.Node       // body of the function in which closure variables are looked up
-	lits  []*ast.FuncLit // closures being inlined (recursion guard)
+	outer ast.Node                  // body of the function (or helper) being copied (for single-assignment tests)
+	root  ast.Node                  // body of the function in which closure variables are looked up
+	lits  []*ast.FuncLit            // closures being inlined (recursion guard)
+	deref map[types.Object]ast.Expr // pointer local -> the variable it points to (`out := &b`): *out reads as b
 }
 
 var (
@@ -142,6 +145,22 @@ func (cl *cloner) val(v reflect.Value) reflect.Value {
 		if _, ok := v.Interface().(*ast.FuncLit); ok {
 			cl.inLit++
 			defer func() { cl.inLit-- }()
+		}
+		if sel, ok := v.Interface().(*ast.SelectorExpr); ok {
+			if id, isID := ast.Unparen(sel.X).(*ast.Ident); isID {
+				if tgt, has := cl.deref[cl.info.Uses[id]]; has {
+					c := &ast.SelectorExpr{X: cl.retarget(cl.expr(tgt), id.Pos()), Sel: cl.ident(sel.Sel).(*ast.Ident)}
+					cl.register(sel, c)
+					return reflect.ValueOf(c)
+				}
+			}
+		}
+		if st, ok := v.Interface().(*ast.StarExpr); ok {
+			if id, isID := ast.Unparen(st.X).(*ast.Ident); isID {
+				if tgt, has := cl.deref[cl.info.Uses[id]]; has {
+					return reflect.ValueOf(cl.retarget(cl.expr(tgt), st.Pos()))
+				}
+			}
 		}
 		nw := reflect.New(v.Type().Elem())
 		for i := 0; i < v.Elem().NumField(); i++ {
@@ -224,6 +243,19 @@ func (cl *cloner) retarget(e ast.Expr, pos token.Pos) ast.Expr {
 		return c
 	case *ast.ParenExpr:
 		return cl.retarget(x.X, pos)
+	case *ast.BinaryExpr:
+		c := &ast.ParenExpr{Lparen: pos, X: &ast.BinaryExpr{X: cl.retarget(x.X, pos), OpPos: pos, Op: x.Op, Y: cl.retarget(x.Y, pos)}, Rparen: pos}
+		cl.register(x, c.X)
+		cl.register(x, c)
+		return c
+	case *ast.CallExpr:
+		if len(x.Args) == 1 {
+			c := &ast.CallExpr{Fun: cl.retarget(x.Fun, pos), Lparen: pos, Args: []ast.Expr{cl.retarget(x.Args[0], pos)}, Rparen: pos}
+			cl.register(x, c)
+			return c
+		}
+	case *ast.ArrayType, *ast.StarExpr, *ast.MapType, *ast.InterfaceType:
+		return x // a type expression inside a conversion
 	}
 	return e
 }
@@ -244,6 +276,22 @@ func (cl *cloner) simple(e ast.Expr) bool {
 		if tv, ok := cl.info.Types[e]; ok && tv.Value != nil {
 			return cl.simple(x.X)
 		}
+		if x.Op == token.SUB || x.Op == token.ADD || x.Op == token.NOT {
+			return cl.simple(x.X)
+		}
+	case *ast.BinaryExpr: // pure arithmetic / comparison over plain operands: no effect, no order to preserve
+		switch x.Op {
+		case token.QUO, token.REM, token.SHL, token.SHR, token.LAND, token.LOR:
+			return false // may panic / short-circuits
+		}
+		return cl.simple(x.X) && cl.simple(x.Y)
+	case *ast.CallExpr:
+		if tv, ok := cl.info.Types[x.Fun]; ok && tv.IsType() && len(x.Args) == 1 {
+			return cl.simple(x.Args[0]) // a conversion
+		}
+		if IsBuiltin(cl.info, x, "len") && len(x.Args) == 1 {
+			return cl.simple(x.Args[0])
+		}
 	}
 	return false
 }
@@ -258,6 +306,9 @@ func (cl *cloner) stmts(list []ast.Stmt) []ast.Stmt {
 	out := make([]ast.Stmt, 0, len(list))
 	for i := 0; i < len(list); i++ {
 		s := list[i]
+		if cl.copyProp(s, list[i+1:]) {
+			continue
+		}
 		var next ast.Stmt
 		if i+1 < len(list) {
 			switch list[i+1].(type) {
@@ -275,6 +326,132 @@ func (cl *cloner) stmts(list []ast.Stmt) []ast.Stmt {
 		out = append(out, cl.node(s).(ast.Stmt))
 	}
 	return out
+}
+
+// copyProp recognises a local that merely carries another value: `x := y` /
+// `var x T = y` with y a plain variable or constant, x never assigned again
+// and y not assigned in the rest of x's scope. Such a local is dropped from the
+// view and its uses read y. This undoes the parameter copies that helper
+// expansion leaves behind (`var a0 = br; ...; src := a0`) and makes "value
+// carried in a local" transparent to rules that identify objects.
+func (cl *cloner) copyProp(s ast.Stmt, rest []ast.Stmt) bool {
+	var ids []*ast.Ident
+	var rhss []ast.Expr
+	limit := 1
+	switch x := s.(type) {
+	case *ast.AssignStmt:
+		if x.Tok == token.DEFINE && len(x.Lhs) == len(x.Rhs) {
+			for i := range x.Lhs {
+				id, _ := x.Lhs[i].(*ast.Ident)
+				ids, rhss = append(ids, id), append(rhss, x.Rhs[i])
+			}
+		}
+	case *ast.DeclStmt:
+		if gd, ok := x.Decl.(*ast.GenDecl); ok && gd.Tok == token.VAR && len(gd.Specs) == 1 {
+			if vs, ok := gd.Specs[0].(*ast.ValueSpec); ok && len(vs.Names) == 1 && len(vs.Values) == 1 {
+				ids, rhss, limit = []*ast.Ident{vs.Names[0]}, []ast.Expr{vs.Values[0]}, 0
+			}
+		}
+	}
+	if len(ids) == 0 {
+		return false
+	}
+	// every position must be a plain copy, otherwise the statement stays as it is
+	type bindg struct {
+		obj types.Object
+		src ast.Expr
+		ptr bool
+	}
+	var binds []bindg
+	for i, id := range ids {
+		if id == nil || rhss[i] == nil {
+			return false
+		}
+		if id.Name == "_" {
+			if _, isID := ast.Unparen(rhss[i]).(*ast.Ident); !isID {
+				return false
+			}
+			continue
+		}
+		obj := cl.info.Defs[id]
+		if obj == nil || Assignments(cl.info, cl.outer, obj) != limit {
+			return false
+		}
+		src := ast.Unparen(rhss[i])
+		if sid, ok := src.(*ast.Ident); ok {
+			if tgt, has := cl.deref[cl.info.Uses[sid]]; has && len(ids) == 1 {
+				return cl.pointerCopy(obj, tgt) // a copy of a pointer to a local
+			}
+			if rep, has := cl.subst[cl.info.Uses[sid]]; has {
+				src = rep // a chain of copies
+			}
+		}
+		// `out := &b` with out only ever dereferenced: *out is b
+		if u, ok := src.(*ast.UnaryExpr); ok && u.Op == token.AND && len(ids) == 1 {
+			if tid, ok := ast.Unparen(u.X).(*ast.Ident); ok {
+				if _, isVar := cl.info.Uses[tid].(*types.Var); isVar {
+					return cl.pointerCopy(obj, tid)
+				}
+			}
+		}
+		switch ast.Unparen(src).(type) {
+		case *ast.Ident, *ast.BasicLit, *ast.SelectorExpr:
+		default:
+			return false // only plain names are propagated: a computed value keeps its own variable
+		}
+		if !cl.simple(src) {
+			return false
+		}
+		if _, isFunc := cl.info.TypeOf(src).Underlying().(*types.Signature); isFunc {
+			return false
+		}
+		if sid, ok := src.(*ast.Ident); ok {
+			if v, isVar := cl.info.Uses[sid].(*types.Var); isVar {
+				for _, r := range rest {
+					if Assignments(cl.info, r, v) > 0 {
+						return false // the source changes while the copy is alive
+					}
+				}
+			}
+		}
+		binds = append(binds, bindg{obj: obj, src: src})
+	}
+	for _, b := range binds {
+		cl.subst[b.obj] = b.src
+	}
+	return true
+}
+
+// pointerCopy registers obj as a pointer to the variable tgt when every use of
+// obj is a dereference, so that `*obj` can be read as tgt.
+func (cl *cloner) pointerCopy(obj types.Object, tgt ast.Expr) bool {
+	onlyDeref := true
+	core.InspectAll(cl.outer, func(m ast.Node) bool {
+		if id, ok := m.(*ast.Ident); ok && cl.info.Uses[id] == obj {
+			path := core.PathTo(cl.outer, id)
+			if k := len(path); k < 2 {
+				onlyDeref = false
+			} else if sel, isSel := path[k-2].(*ast.SelectorExpr); isSel && sel.X == ast.Expr(id) {
+				// p.f / p.M(): Go dereferences the pointer itself, so it reads the same on the variable
+			} else if st, isStar := path[k-2].(*ast.StarExpr); !isStar || st.X != ast.Expr(id) {
+				// a further plain copy `p := obj` is fine, it is resolved in turn
+				as, isAs := path[k-2].(*ast.AssignStmt)
+				vs, isVs := path[k-2].(*ast.ValueSpec)
+				if !(isAs && as.Tok == token.DEFINE && len(as.Rhs) == 1 && as.Rhs[0] == ast.Expr(id)) && !(isVs && len(vs.Values) == 1 && vs.Values[0] == ast.Expr(id)) {
+					onlyDeref = false
+				}
+			}
+		}
+		return true
+	})
+	if !onlyDeref {
+		return false
+	}
+	if cl.deref == nil {
+		cl.deref = map[types.Object]ast.Expr{}
+	}
+	cl.deref[obj] = tgt
+	return true
 }
 
 // stmt handles the statements that get special treatment; nil means "copy as is".
@@ -319,6 +496,16 @@ func (cl *cloner) stmt(s ast.Stmt, next ast.Stmt) (out []ast.Stmt, usedNext bool
 		}
 	case *ast.AssignStmt:
 		if cl.dropClosureDef(x) {
+			return []ast.Stmt{}, false
+		}
+		// `_ = v` only silences the compiler
+		blank := x.Tok == token.ASSIGN && len(x.Lhs) == len(x.Rhs)
+		for i := range x.Lhs {
+			id, isID := x.Lhs[i].(*ast.Ident)
+			_, rhsID := ast.Unparen(x.Rhs[min(i, len(x.Rhs)-1)]).(*ast.Ident)
+			blank = blank && isID && id.Name == "_" && rhsID
+		}
+		if blank {
 			return []ast.Stmt{}, false
 		}
 		if call, h := cl.callAssign(x); h != nil {
@@ -611,6 +798,14 @@ func (cl *cloner) inline(call *ast.CallExpr, h *core.Fn, pol *retPolicy, afterLa
 			child.subst[obj] = ast.Unparen(arg)
 			return
 		}
+		// an out-parameter: `h(&x)` with the parameter only dereferenced in h
+		if u, ok := ast.Unparen(arg).(*ast.UnaryExpr); ok && u.Op == token.AND && obj != nil && Assignments(cl.info, h.Decl.Body, obj) == 0 {
+			if tid, ok := ast.Unparen(u.X).(*ast.Ident); ok {
+				if _, isVar := core.ObjOf(cl.info, tid).(*types.Var); isVar && child.pointerCopy(obj, tid) {
+					return
+				}
+			}
+		}
 		id := &ast.Ident{NamePos: arg.Pos(), Name: name.Name}
 		cl.info.Defs[id] = obj
 		pre = append(pre, &ast.AssignStmt{Lhs: []ast.Expr{id}, TokPos: arg.Pos(), Tok: token.DEFINE, Rhs: []ast.Expr{arg}})
@@ -709,19 +904,9 @@ func (cl *cloner) rewriteReturn(ret *ast.ReturnStmt) []ast.Stmt {
 				continue
 			}
 			r := ret.Results[i]
-			switch {
-			case core.IsNil(cl.info, r):
-				env[o] = known{kind: 1}
-			case nonNilErr(cl.info, p.orig.Decl.Body, ret, r) || cl.boundNonNil(r):
+			resultKnowledge(cl.info, p.orig.Decl.Body, ret, o, r, env)
+			if cl.boundNonNil(r) {
 				env[o] = known{kind: 2}
-			default:
-				if tv, ok := cl.info.Types[r]; ok && tv.Value != nil {
-					if k, isInt := core.IntConst(cl.info, r); isInt {
-						env[o] = known{kind: 4, k: k}
-					} else if s := tv.Value.String(); s == "true" || s == "false" {
-						env[o] = known{kind: 3, b: s == "true"}
-					}
-				}
 			}
 		}
 		if l := p.thread.target(env); l != "" {
@@ -798,6 +983,57 @@ func Contains(root, n ast.Node) bool {
 // ReachingDef returns the expression assigned to obj by the only assignment
 // whose value can reach `at` (nil when several, or a non 1:1 one, can).
 func ReachingDef(g *cfgq.Graph, obj types.Object, at cfgq.Point) ast.Expr {
+	e, _ := ReachingDefAt(g, obj, at)
+	return e
+}
+
+// ChaseDef follows a local through its unique reaching definitions (copies of
+// copies) as far as they are unique, and returns the expression finally assigned.
+func ChaseDef(g *cfgq.Graph, e ast.Expr, at cfgq.Point) ast.Expr {
+	for i := 0; i < 5; i++ {
+		// a field of a struct local built by a composite literal
+		if sel, ok := ast.Unparen(e).(*ast.SelectorExpr); ok {
+			if so := Obj(g.Info, sel.X); so != nil {
+				if d, p := ReachingDefAt(g, so, at); d != nil {
+					lit := ast.Unparen(d)
+					if u, isAddr := lit.(*ast.UnaryExpr); isAddr && u.Op == token.AND {
+						lit = ast.Unparen(u.X)
+					}
+					if cl, isLit := lit.(*ast.CompositeLit); isLit {
+						found := false
+						for _, el := range cl.Elts {
+							if kv, keyed := el.(*ast.KeyValueExpr); keyed {
+								if id, ok := kv.Key.(*ast.Ident); ok && id.Name == sel.Sel.Name {
+									e, at, found = ast.Unparen(kv.Value), p, true
+								}
+							}
+						}
+						if found {
+							continue
+						}
+					} else if _, isID := lit.(*ast.Ident); isID {
+						e, at = &ast.SelectorExpr{X: lit, Sel: sel.Sel}, p
+						continue
+					}
+				}
+			}
+			return e
+		}
+		o := Obj(g.Info, e)
+		if o == nil {
+			return e
+		}
+		d, p := ReachingDefAt(g, o, at)
+		if d == nil {
+			return e
+		}
+		e, at = ast.Unparen(d), p
+	}
+	return e
+}
+
+// ReachingDefAt is ReachingDef that also returns where the definition is.
+func ReachingDefAt(g *cfgq.Graph, obj types.Object, at cfgq.Point) (ast.Expr, cfgq.Point) {
 	info := g.Info
 	isDef := func(n ast.Node) bool {
 		switch s := n.(type) {
@@ -816,6 +1052,7 @@ func ReachingDef(g *cfgq.Graph, obj types.Object, at cfgq.Point) ast.Expr {
 	}
 	target := at.Node()
 	var rhs ast.Expr
+	var where cfgq.Point
 	n := 0
 	for _, p := range g.Points(isDef) {
 		if g.Path(cfgq.Query{From: p, After: true, Avoid: isDef, Target: func(m ast.Node) bool { return m == target }}) == nil {
@@ -824,19 +1061,19 @@ func ReachingDef(g *cfgq.Graph, obj types.Object, at cfgq.Point) ast.Expr {
 		n++
 		as, ok := p.Node().(*ast.AssignStmt)
 		if !ok || len(as.Lhs) != len(as.Rhs) || as.Tok != token.DEFINE && as.Tok != token.ASSIGN {
-			return nil
+			return nil, cfgq.Point{}
 		}
 		for i, l := range as.Lhs {
 			if IsObj(info, obj)(l) {
-				rhs = as.Rhs[i]
+				rhs, where = as.Rhs[i], p
 			}
 		}
 	}
 	// a path from the entry that meets no assignment leaves the initial value
 	if n != 1 || g.Path(cfgq.Query{From: g.Entry(), Avoid: isDef, Target: func(m ast.Node) bool { return m == target }}) != nil && !isDef(g.Entry().Node()) {
-		return nil
+		return nil, cfgq.Point{}
 	}
-	return rhs
+	return rhs, where
 }
 
 // boundNonNil: r (a result expression of the helper being inlined) is an error
